@@ -50,6 +50,7 @@ fn handle(line: &str) -> String {
         Request::Parse(kind, bytes) => view::dump_kind(&mut out, "", *kind, bytes),
         Request::Pad(kind, bytes, n) => run_pad(&mut out, *kind, bytes, *n),
         Request::Build(b, bufs) => build::run_build(&mut out, b, bufs),
+        Request::Size(b) => build::run_size(&mut out, b),
     }
     out.buf
 }
